@@ -16,7 +16,11 @@
  * flags of the daemon: d data_already_pending, r resuming, n have_new, c cleanup list non-empty
  * per connection (only connections the library has started and not yet freed):
  *          la = last_activity, tmo = connection_timeout_ms, flags: s suspended, r resuming,
- *          x state == CLOSED
+ *          x state == CLOSED, p event_loop_info has the PROCESS bit (work pending without any
+ *          socket event), b<n> n unprocessed upload bytes in the read buffer (state BODY_RECEIVING)
+ *   slow <c>       the handler of <c> consumes one upload byte per call from now on (the rest stays in
+ *                  MHD's read buffer: *upload_data_size is left non-zero, which is legal)
+ *   sendn <c> <k>  like `send`, but k (1..8) body bytes in one piece
  * No address or fd number is printed.
  *
  *   conv <c> <x> <max>   (white-box) with connection <c> the only candidate of MHD_get_timeout64:
@@ -59,6 +63,7 @@ struct conn {
   int used, cfd, eof_seen;
   int kind;                 /* 0 nothing sent yet, 1 posting (handler aware), 2 partial request line */
   int want_susp;
+  int slow;                 /* handler takes one upload byte per call */
   struct MHD_Connection *mc;
 };
 static struct conn conns[MAXC];
@@ -122,7 +127,8 @@ static enum MHD_Result handler (void *cls, struct MHD_Connection *mc, const char
   if (NULL == *req_cls) { *req_cls = &token; return MHD_YES; }
   if (0 != *upload_data_size)
   {
-    *upload_data_size = 0;           /* consume everything */
+    if (c >= 0 && conns[c].slow) *upload_data_size -= 1;   /* take one byte, leave the rest */
+    else *upload_data_size = 0;           /* consume everything */
     if (c >= 0 && conns[c].want_susp)
     {
       conns[c].want_susp = 0;
@@ -189,8 +195,11 @@ static void report (const char *echo)
     if (conns[c].used && conns[c].mc)
     {
       struct MHD_Connection *m = conns[c].mc;
-      printf (" %d:%" PRIu64 ":%" PRIu64 ":%s%s%s", c, m->last_activity, m->connection_timeout_ms,
-              m->suspended ? "s" : "", m->resuming ? "r" : "", (MHD_CONNECTION_CLOSED == m->state) ? "x" : "");
+      printf (" %d:%" PRIu64 ":%" PRIu64 ":%s%s%s%s", c, m->last_activity, m->connection_timeout_ms,
+              m->suspended ? "s" : "", m->resuming ? "r" : "", (MHD_CONNECTION_CLOSED == m->state) ? "x" : "",
+              (0 != (MHD_EVENT_LOOP_INFO_PROCESS & m->event_loop_info)) ? "p" : "");
+      if (MHD_CONNECTION_BODY_RECEIVING == m->state && 0 != m->read_buffer_offset)
+        printf ("b%u", (unsigned) m->read_buffer_offset);
     }
   putchar ('\n');
 }
@@ -288,6 +297,19 @@ int main (void)
       if (MHD_YES != q) { ev ("add-failed"); }
       report (echo); continue;
     }
+    if (!strcmp (op, "sendn") && 3 == l.n && lp_u64 (l.w[1], &a) && a < MAXC && conns[a].used && conns[a].cfd >= 0
+        && lp_u64 (l.w[2], &b) && b >= 1 && b <= 8 && 2 != conns[a].kind)
+    {
+      char data[sizeof(POST_HEAD) + 8]; size_t n = 0;
+      if (0 == conns[a].kind) { memcpy (data, POST_HEAD, sizeof(POST_HEAD) - 1); n = sizeof(POST_HEAD) - 1; b--; }
+      memset (data + n, 'x', (size_t) b); n += (size_t) b;
+      conns[a].kind = 1;
+      (void) send (conns[a].cfd, data, n, MSG_DONTWAIT | MSG_NOSIGNAL);
+      report (echo); continue;
+    }
+    if (!strcmp (op, "slow") && 2 == l.n && lp_u64 (l.w[1], &a) && a < MAXC && conns[a].used && !conns[a].want_susp
+        && !(conns[a].mc && conns[a].mc->suspended))
+    { conns[a].slow = 1; report (echo); continue; }
     if ((!strcmp (op, "send") || !strcmp (op, "sendp")) && 2 == l.n && lp_u64 (l.w[1], &a) && a < MAXC
         && conns[a].used && conns[a].cfd >= 0)
     {
@@ -338,7 +360,7 @@ int main (void)
       printf (" s64=%" PRId64 " i=%d ms=%" PRId64 " msi=%d\n", s64, vi, ms, msi);
       continue;
     }
-    if (!strcmp (op, "susp") && 2 == l.n && lp_u64 (l.w[1], &a) && a < MAXC && conns[a].used)
+    if (!strcmp (op, "susp") && 2 == l.n && lp_u64 (l.w[1], &a) && a < MAXC && conns[a].used && !conns[a].slow)
     { conns[a].want_susp = 1; report (echo); continue; }
     if (!strcmp (op, "resume") && 2 == l.n && lp_u64 (l.w[1], &a) && a < MAXC && conns[a].used && conns[a].mc
         && conns[a].mc->suspended && cfg.suspend)
